@@ -285,6 +285,14 @@ func (e *Exec) assign(l ast.Expr, v Val) {
 }
 
 func (e *Exec) branch(cond string) (*State, *State) {
+	if v, ok := e.decided(cond); ok {
+		// the requires clauses already decide this condition: the other branch is dead code here
+		if v {
+			cond = tTrue
+		} else {
+			cond = tFalse
+		}
+	}
 	saved := e.st
 	a := saved.clone()
 	a.pc = e.namePC(mkAnd(saved.pc, cond))
